@@ -1422,7 +1422,14 @@ func (e *env) buildLocal() error {
 	// operator passes to LocalFileSystem is not canonical in general:
 	// cmd/webdav-server serves "." by default).
 	spelled := e.root
-	switch e.idx % 4 {
+	switch e.idx % 5 {
+	case 4:
+		// the operator's path is a symbolic link to the directory
+		link := e.root + "-via-link"
+		os.Remove(link)
+		if err := os.Symlink(e.root, link); err == nil {
+			spelled = link
+		}
 	case 1:
 		if wd, err := os.Getwd(); err == nil {
 			if rel, err := filepath.Rel(wd, e.root); err == nil {
@@ -1435,7 +1442,8 @@ func (e *env) buildLocal() error {
 		spelled = filepath.Dir(e.root) + "/./" + filepath.Base(e.root)
 	}
 	e.c.Observe("served directory configured as", map[bool]string{true: "absolute", false: "relative to the working directory"}[filepath.IsAbs(spelled)]+
-		map[bool]string{true: ", clean", false: ", not clean (trailing slash, dot segment)"}[filepath.Clean(spelled) == spelled], 1)
+		map[bool]string{true: ", clean", false: ", not clean (trailing slash, dot segment)"}[filepath.Clean(spelled) == spelled]+
+		map[bool]string{true: ", a symbolic link to the directory", false: ""}[spelled == e.root+"-via-link"], 1)
 	e.lfs = webdav.LocalFileSystem(spelled)
 	for _, n := range e.t.Nodes {
 		p := e.diskPath(absPath(n.Segs))
